@@ -31,6 +31,15 @@ Proof.
   rewrite Bool.orb_true_r. reflexivity.
 Qed.
 
+Lemma mix_and_split_with_moisture_hist_is n mws ins split opsR opsP w mc bm mwc strict :
+  mix_and_split_with_moisture_hist n mws ins split opsR opsP w mc bm mwc strict
+  = Some (mix_and_split_with_moisture n mws ins split w mc bm mwc strict).
+Proof.
+  unfold mix_and_split_with_moisture_hist.
+  rewrite (lrun_view_ok opsR linit linit_view_ok), (lrun_view_ok opsP linit linit_view_ok).
+  rewrite Bool.orb_true_r. reflexivity.
+Qed.
+
 (* ---------- (b) phase index caches ---------- *)
 Lemma blist_eqb_eq (a b : list bool) : blist_eqb a b = true -> a = b.
 Proof.
